@@ -253,8 +253,8 @@ structure Imp where
   deriving Repr, DecidableEq, Inhabited
 
 /-- what `import_part` of a schema-typed importer sees of the staging buffers -/
-def chunkOf (r : List Nat) (vals : List Nat) (off cap n : Nat) : Transforms.Chunk :=
-  { inds := r, vals := vals, off := off, cap := cap, rows := n }
+def chunkOf (r : List Nat) (vals : List Nat) (off cap n col ncols : Nat) : Transforms.Chunk :=
+  { inds := r, vals := vals, off := off, cap := cap, rows := n, col := col, ncols := ncols }
 
 /-- `import_part` of the schema-typed importers on their chunk: each is one step of the corresponding `…Import` fold of
     `Model/Transforms.lean` -/
@@ -275,7 +275,8 @@ def Imp.typedPart (imp : Imp) (ch : Transforms.Chunk) : Except Err Imp :=
     | .error e => .error e
     | .ok st => .ok { imp with codes := st.data, idx := st.ftIndices, vals := st.ftValues, acc := st.acc }
   | .bool mode invalid =>
-    match Transforms.boolTransform ch mode invalid with
+    -- `elements = np.zeros(written_row_count)`, `validity = np.ones(written_row_count)`
+    match Transforms.boolTransform ch mode invalid ch.rows ch.rows with
     | .error e => .error e
     | .ok (el, va) => .ok { imp with bools := imp.bools ++ el, valids := imp.valids ++ va }
   | .numeric p mode invalidText invalidVal =>
@@ -318,9 +319,9 @@ def Imp.importPart (imp : Imp) (inds : List (List Nat)) (vals : List Nat) (offs 
       -- `col_count = column_offsets[col_idx + 1] - column_offsets[col_idx]` sizes the free-text staging array
       match getE offs (c + 1) "column_offsets[col_idx+1]" with
       | .error e => .error e
-      | .ok off1 => imp.typedPart (chunkOf r vals off (off1 - off) n)
+      | .ok off1 => imp.typedPart (chunkOf r vals off (off1 - off) n c inds.length)
     -- (`cap` is read by the leaky importer only; the other transforms never look at it)
-    | _ => imp.typedPart (chunkOf r vals off vals.length n)
+    | _ => imp.typedPart (chunkOf r vals off vals.length n c inds.length)
 
 /-- `for ith, i_c in enumerate(index_map): field_importer_list[ith].import_part(…, i_c, written_row_count)` -/
 def importAll (inds : List (List Nat)) (vals : List Nat) (offs : List Nat) (n : Nat) :
